@@ -810,6 +810,7 @@ var c16ExTree = []c16TP{
 	{Path: "work/dest/inchart/Chart.lock", Kind: "link", Data: "inner.lock"},
 	{Path: "work/dest/inchart/requirements.lock", Kind: "link", Data: "./sub/../inner.lock"},
 	{Path: "work/dest/inchart/sub", Kind: "dir"},
+	{Path: "work/dest/linkplain", Kind: "link", Data: "plain"},
 }
 
 func c16Chain(n int, end string) []c16TP {
@@ -849,10 +850,10 @@ func c16CorpusTree() []any {
 	for _, name := range []string{"mychart", "linked", "abs", "loop", "dang", "a", "a/chain", "file", "../../outside/dir", "/", ".", "new/deeper"} {
 		out = append(out, c16Case{Kind: "expandt", Tree: c16ExTree, Ents: []c16Ent{chartYaml(name), reg("x/keep", "new"), reg("x/templates/a.yaml", "a"), reg("x/up", "u"), reg("x/Chart.lock", "l")}})
 	}
-	out = append(out, c16Case{Kind: "expandt", Tree: c16ExTree, Ents: []c16Ent{chartYaml("a"), {Name: "x/lnk", Type: '2', Mode: 0o777, Link: "../../../outside/target"}, reg("x/lnk", "through?"), reg("x/up", "u"), reg("x/chain/keep", "k")}})
+	out = append(out, c16Case{Kind: "expandt", Tree: c16ExTree, Ents: []c16Ent{chartYaml("a"), {Name: "x/lnk", Type: '2', Mode: 0o777, Link: "../../../outside/target"}, reg("x/lnk", "through?"), reg("x/up", "u"), reg("x/chain/keep", "written")}})
 	for _, ents := range [][]c16Ent{
 		{reg("plugin.yaml", "name: p"), {Name: "bin", Type: '5', Mode: 0o755}, reg("bin/x", "#!/bin/sh")},
-		{reg("dang", "d")}, {reg("mychart/new", "n")}, {reg("a/up", "u")}, {reg("abs/dir/keep", "k")}, {reg("a/chain/keep", "k")}, {reg("loop", "l")}, {reg("loop/x", "l")},
+		{reg("dang", "d")}, {reg("mychart/new", "n")}, {reg("a/up", "u")}, {reg("abs/dir/keep", "written")}, {reg("a/chain/keep", "written")}, {reg("loop", "l")}, {reg("loop/x", "l")},
 		{{Name: "mychart", Type: '5', Mode: 0o755}}, {{Name: "dang", Type: '5', Mode: 0o755}}, {{Name: "newdir", Type: '5', Mode: 0o755}, reg("newdir/f", "f"), reg("newdir/f", "g2")},
 		{reg("file", "xy")}, {reg("file/x", "x")}, {{Name: "l", Type: '2', Mode: 0o777, Link: "../../outside/target"}, reg("l", "x")}, {reg("plain/Chart.lock", "short")},
 		{reg("linked/Chart.lock", "via two links")}, {reg("a\\up", "backslash is a separator here")}, {reg("c:up", "colon")},
@@ -861,7 +862,7 @@ func c16CorpusTree() []any {
 	}
 	for _, legacy := range []bool{false, true} {
 		for _, cp := range []string{"work/dest/chart", "work/dest/linked", "work/dest/mychart", "work/dest/abs/dir", "work/dest/a/..", "work/dest/loop", "work/dest/plain", "work/dest/plain/",
-			"work/dest", "work/dest/dang", "work/dest/file", "work/dest/nothing", "work//dest/./chart", "work/dest/a/chain", "work/dest/inchart"} {
+			"work/dest", "work/dest/dang", "work/dest/file", "work/dest/nothing", "work//dest/./chart", "work/dest/a/chain", "work/dest/inchart", "work/dest/linkplain", "work/dest/linkplain/../linkplain/"} {
 			out = append(out, c16Case{Kind: "lockt", Tree: c16ExTree, ChartPath: cp, Legacy: legacy})
 		}
 	}
